@@ -154,7 +154,7 @@ def walk(desc, observe=None, n_strategies=1, strategy_kw=None):
                         tif, mfs = "FILL_OR_KILL", rng.choice((None, 1.0))
                     reuse = [o for o, mm in r.orders if mm == mid and o.trade.strategy is st and (o.selection_id, o.handicap) == key]
                     trade = rng.choice(reuse).trade if reuse and rng.random() < 0.25 else None
-                    o = livecases.make_order(st, mid, sel=key[0], handicap=key[1], side=side, price=pr, size=rng.choice((2.0, 5.0, 12.5, 40.0)), persistence=rng.choice(("PERSIST", "LAPSE", "LAPSE")), tif=tif, min_fill=mfs, trade=trade)
+                    o = livecases.make_order(st, mid, sel=key[0], handicap=key[1], side=side, price=pr, size=rng.choice((2.0, 5.0, 12.5, 40.0)), persistence=rng.choice(("PERSIST", "LAPSE", "LAPSE", "MARKET_ON_CLOSE")) if not tif else "LAPSE", tif=tif, min_fill=mfs, trade=trade)
                     if m.place_order(o, client=rng.choice(w.clients)):
                         r.orders.append((o, mid))
                         tr.counters["paper_placed"] += 1
